@@ -492,11 +492,14 @@ func (c *SpecCtx) ssaName(name string) (TV, bool) {
 		return TV{}, false
 	}
 	if name == "$idx" {
-		// completed iterations of the range loop whose header is b
-		for _, in := range b.Instrs {
-			if p, ok := in.(*ssa.Phi); ok && p.Comment == "rangeindex" {
-				tv, _ := get(p, false)
-				return TV{Sc{add(tv.V.(Sc).T, intLit(1))}, mathInt}, true
+		// completed iterations of the innermost enclosing range loop (at its header), i.e. the index of
+		// the element being processed when used inside the body
+		for d := b; d != nil; d = d.Idom() {
+			for _, in := range d.Instrs {
+				if p, ok := in.(*ssa.Phi); ok && p.Comment == "rangeindex" {
+					tv, _ := get(p, false)
+					return TV{Sc{add(tv.V.(Sc).T, intLit(1))}, mathInt}, true
+				}
 			}
 		}
 		return TV{}, false
@@ -883,6 +886,23 @@ func (c *SpecCtx) call(n *ECall) TV {
 			c.fail("fresh() of composite value")
 		}
 		return TV{Sc{not(app(SBool, "ref.old", app(SInt, "ref.root", ref)))}, mathBool}
+	case "unbox": // unbox(x, "T"): the value of dynamic type T stored in interface x
+		a := c.eval(n.Args[0])
+		st, ok := n.Args[1].(*EStr)
+		if !ok {
+			c.fail("unbox needs a string literal type")
+		}
+		t := c.resolveType(st.V)
+		if t == nil {
+			c.fail("unbox: unknown type %s", st.V)
+		}
+		_, unbox, _ := c.e.boxName(t)
+		sorts := leafSorts(t)
+		if len(sorts) != 1 {
+			c.fail("unbox of multi-word type")
+		}
+		c.e.declareFun(unbox, []string{SInt}, sorts[0])
+		return TV{Sc{app(sorts[0], smtSym(unbox), a.V.(Sc).T)}, t}
 	case "typeis": // typeis(x, "pkg.T") dynamic type test on interface
 		a := c.eval(n.Args[0])
 		s, ok := n.Args[1].(*EStr)
